@@ -279,8 +279,14 @@ class LQRHist(Sub):
                     Q, p, x0 = pr2["Q"], pr2["p"], pr2["x0"]
                     ut, ut_keep, nlab = _nominal(rs, nb, Th, nc, flag, arg)
                     rec.label(nlab)
+                    Qa, pa = Tn(Q), Tn(p)
+                    if (not case["tvq"]) and arg % 2 == 0:
+                        # time-invariant cost in the documented SHORT forms Q (B, n, n), p (B, n): the constructor tiles them over the
+                        # horizon itself (every batch entry must keep its own row)
+                        Qa, pa = Qa[:, 0].clone(), pa[:, 0].clone()
+                        rec.label("cost:short_form")
                     with rec.sut("LQR"):
-                        lqr = pp.module.LQR(sysm, Tn(Q), Tn(p), Th)
+                        lqr = pp.module.LQR(sysm, Qa, pa, Th)
                         x, u, cost = lqr(Tn(x0), u_traj=ut)
                     if ut is not None:
                         rec.check(torch.equal(ut, ut_keep), "lqr:mutates_u_traj", "LQR changed the caller's nominal input trajectory (%s)" % nlab)
